@@ -115,3 +115,224 @@ Print Assumptions C05_continue_gapless.
 Print Assumptions C05_continue_gapless_step.
 Print Assumptions C05_reopen_lossless.
 Print Assumptions C05_history_refines.
+
+(** ** bridge to the byte level (L3 -> L1): a crash at ANY byte is a crash at a record boundary.
+    Model/Seglog.v (bytes, CRC-32, `Writer::open`'s recovery scan) under Model/Store.v (records); lemmas in
+    Proofs/BridgeBytesProofs.v.  zstd is not modelled: [compress]/[decompress] are universally quantified and only
+    [codec_ok] is assumed.  The file after the crash: [pre] (segment header, the scan starts at [lenN pre]), the
+    encodings of the whole records, the first [k] bytes of the next record's encoding, then [z] zero bytes (the
+    rest of the pre-allocated file).
+
+    Full-strength statement (no side condition):
+        forall rs c h d pre k z, codec_ok -> wf_all rs -> wf_rec c h d -> k < lenN (stored_record c h d) ->
+          writer_open_offset (cut_file pre rs c h d k z) (lenN pre) = ROk (lenN pre + lenN (concat (stored_all rs)))
+    It is FALSE of the model, in two ways ([C05_byte_cut_unconditional_refuted]):
+      - benign: the bytes that did not reach the disk were all zero, so the record is intact in the zero-filled
+        file: recovery keeps it too — still a record cut, with one more record ([C05_byte_cut_zero_tail]);
+      - a genuine CRC-32 coincidence: the cut record's remains followed by zeros carry a matching CRC (the lost
+        bytes are a multiple of the generator polynomial): the decoder accepts a record that was never written.
+        This also happens with FEWER than 8 bytes of the head on disk (the CRC field's missing bytes are zero).
+    So the theorem carries the side condition [cut_detected] (= [~ crc_accepts]: bytes and CRC-32 only), which is
+    exactly "the decoder stops the scan here" ([C05_cut_detected_exact]), and it is proved for the deterministic
+    classes: decided by the head alone ([C05_cut_detected_head], [.._nothing_written], [.._zero_head],
+    [.._file_end]) and lost bytes forming a burst of at most 32 bits ([C05_cut_detected_burst],
+    [C05_cut_detected_short_tail]).  What is missing for full strength is only the CRC-coincidence class
+    (a 2^-32 event over the data; torn records in a zero-filled file are exercised on the implementation by this
+    property's crash harness). *)
+From Coq Require Import Lia.
+From SV Require Import Model.Crc32 Model.Seglog Proofs.SeglogProofs Proofs.BridgeBytesProofs.
+
+(* the side condition, exactly: the decoder reports an error that ends the recovery scan (EOob, ETrunc, ECrc) at [v]
+   iff [v] is not CRC-accepted — whatever zstd does *)
+Theorem C05_cut_detected_exact : forall H decompress v,
+  cut_detected H v <-> exists e, decode_view H decompress v = RErr e /\ e <> EIo.
+Proof. intros H decompress. exact (detected_iff H (fun x => x) decompress). Qed.
+
+Theorem C05_cut_detected_or_accepted : forall H v, cut_detected H v \/ crc_accepts H v.
+Proof. intros H. exact (detected_or_accepted H (fun x => x) (fun _ => None)). Qed.
+
+(** the recovery scan returns the write offset right after the whole records, and exactly those records *)
+Theorem C05_byte_cut_is_record_cut_partial : forall H compress decompress rs c h d pre k z,
+  codec_ok compress decompress -> wf_all H compress rs ->
+  cut_detected H (takeN k (stored_record H compress c h d) ++ zerosN z) ->
+  let file := cut_file H compress pre rs c h d k z in
+  let end_rs := lenN pre + lenN (concat (stored_all H compress rs)) in
+  writer_open_offset H decompress file (lenN pre) = ROk end_rs /\
+  exists ra t, iter_all H decompress file (lenN file) ra_empty (lenN pre) =
+               (ra, with_offsets (lenN pre) (expected_all H compress rs), end_rs, t) /\ (t = TEnd \/ t = TErr ECrc).
+Proof. exact byte_cut_is_record_cut. Qed.
+
+(** any byte prefix [b] of the bytes of ANY record list falls into one record ([keep], at its byte [k]) *)
+Theorem C05_any_byte_cut_is_record_cut_partial : forall H compress decompress rs pre b z,
+  codec_ok compress decompress -> wf_all H compress rs -> b < lenN (concat (stored_all H compress rs)) ->
+  exists keep c h d k,
+    nth_error rs keep = Some (c, h, d) /\ k < lenN (stored_record H compress c h d) /\
+    b = lenN (concat (stored_all H compress (firstn keep rs))) + k /\
+    pre ++ takeN b (concat (stored_all H compress rs)) ++ zerosN z = cut_file H compress pre (firstn keep rs) c h d k z /\
+    (cut_detected H (takeN k (stored_record H compress c h d) ++ zerosN z) ->
+     let file := pre ++ takeN b (concat (stored_all H compress rs)) ++ zerosN z in
+     let end_keep := lenN pre + lenN (concat (stored_all H compress (firstn keep rs))) in
+     writer_open_offset H decompress file (lenN pre) = ROk end_keep /\
+     exists ra t, iter_all H decompress file (lenN file) ra_empty (lenN pre) =
+                  (ra, with_offsets (lenN pre) (expected_all H compress (firstn keep rs)), end_keep, t) /\
+                  (t = TEnd \/ t = TErr ECrc)).
+Proof. exact any_byte_cut_is_record_cut. Qed.
+
+(** (i) cuts decided by the head alone: fewer than 8 bytes left in the file, the truncation marker (8 zero bytes),
+    the file ends inside the claimed extent, the claimed length is below the header size *)
+Theorem C05_cut_detected_head : forall H v,
+  lenN v < RECORD_HEAD \/ all_zero (sliceN v 0 RECORD_HEAD) = true \/
+  lenN v < RECORD_HEAD + claimed_plen v \/ claimed_plen v < H -> cut_detected H v.
+Proof. intros H. exact (cut_head_detected H (fun x => x) (fun _ => None)). Qed.
+
+Theorem C05_cut_detected_nothing_written : forall H enc z, cut_detected H (takeN 0 enc ++ zerosN z).
+Proof. intros H. exact (cut_nothing_written_detected H (fun x => x) (fun _ => None)). Qed.
+
+Theorem C05_cut_detected_zero_head : forall H enc k z, k < RECORD_HEAD -> all_zero (takeN k enc) = true ->
+  cut_detected H (takeN k enc ++ zerosN z).
+Proof. intros H. exact (cut_zero_head_detected H (fun x => x) (fun _ => None)). Qed.
+
+Theorem C05_cut_detected_file_end : forall H compress decompress c h d k z,
+  codec_ok compress decompress -> wf_rec H compress c h d ->
+  RECORD_HEAD <= k -> k + z < lenN (stored_record H compress c h d) ->
+  cut_detected H (takeN k (stored_record H compress c h d) ++ zerosN z).
+Proof. exact cut_file_end_detected. Qed.
+
+(** (ii) the lost bytes (as an error pattern over the record: zeros up to the cut, then what did not reach the disk)
+    are a burst of at most 32 bits — by C17_crc_burst *)
+Theorem C05_cut_detected_burst : forall H compress decompress c h d k z,
+  codec_ok compress decompress -> wf_rec H compress c h d ->
+  RECORD_HEAD <= k -> k <= lenN (stored_record H compress c h d) ->
+  burst32 (zerosN (k - RECORD_HEAD) ++ dropN k (stored_record H compress c h d)) ->
+  cut_detected H (takeN k (stored_record H compress c h d) ++ zerosN z).
+Proof. exact cut_burst_detected. Qed.
+
+(* in particular: the lost bytes are non-zero only within at most four consecutive bytes — e.g. every cut inside the
+   last four bytes of a record whose lost bytes are not all zero *)
+Theorem C05_cut_detected_short_tail : forall H compress decompress c h d k z u m,
+  codec_ok compress decompress -> wf_rec H compress c h d ->
+  RECORD_HEAD <= k -> k <= lenN (stored_record H compress c h d) ->
+  dropN k (stored_record H compress c h d) = u ++ zerosN m -> lenN u <= 4 -> all_zero u = false ->
+  cut_detected H (takeN k (stored_record H compress c h d) ++ zerosN z).
+Proof. exact cut_short_tail_detected. Qed.
+
+(** (iii) the lost bytes are all zero: the record is intact in the zero-filled file, recovery keeps it as well *)
+Theorem C05_byte_cut_zero_tail : forall H compress decompress rs c h d pre k z,
+  codec_ok compress decompress -> wf_all H compress rs -> wf_rec H compress c h d ->
+  all_zero (dropN k (stored_record H compress c h d)) = true -> lenN (stored_record H compress c h d) - k <= z ->
+  let file := cut_file H compress pre rs c h d k z in
+  let end_all := lenN pre + lenN (concat (stored_all H compress (rs ++ [(c, h, d)]))) in
+  writer_open_offset H decompress file (lenN pre) = ROk end_all /\
+  exists ra, iter_all H decompress file (lenN file) ra_empty (lenN pre) =
+             (ra, with_offsets (lenN pre) (expected_all H compress (rs ++ [(c, h, d)])), end_all, TEnd).
+Proof. exact cut_zero_tail_keeps_record. Qed.
+
+(** the unconditional statement is false of the model: H = 1 (as in sierradb), no compression, header [0], data = the
+    CRC generator as a 33-bit pattern.  With the 8 head bytes on disk — or only 7 of them, for the 71-byte variant
+    whose CRC has a zero top byte — the decoder accepts a record of zero bytes that was never written, and
+    Writer::open resumes AFTER it *)
+Theorem C05_byte_cut_unconditional_refuted :
+  (wf_rec 1 wit_id false [0] wit_gen /\
+   crc_accepts 1 (takeN 8 (stored_record 1 wit_id false [0] wit_gen) ++ zerosN 100) /\
+   decode_view 1 wit_some (takeN 8 (stored_record 1 wit_id false [0] wit_gen) ++ zerosN 100) =
+     ROk {| r_hdr := [0]; r_data := [0;0;0;0;0]; r_cdata := None; r_len := 14 |} /\
+   writer_open_offset 1 wit_some (cut_file 1 wit_id [9;9] [] false [0] wit_gen 8 100) 2 = ROk 16) /\
+  (wf_rec 1 wit_id false [0] wit_gen71 /\
+   crc_accepts 1 (takeN 7 (stored_record 1 wit_id false [0] wit_gen71) ++ zerosN 100) /\
+   decode_view 1 wit_some (takeN 7 (stored_record 1 wit_id false [0] wit_gen71) ++ zerosN 100) =
+     ROk {| r_hdr := [0]; r_data := zerosN 71; r_cdata := None; r_len := 80 |}).
+Proof. exact (conj wit_coincidence wit_coincidence_head). Qed.
+
+(** ** down to L1.  [enc_rec] (how the engine turns a record into a seglog append: compression setting, the H header
+    bytes, the bincode data) and [dec_rec] (how hydration reads a seglog record back) are NOT modelled; the premise
+    [enc_ok_on (s_recs (live s))] says, for the records of the live segment only: each is a well-typed append
+    ([wf_enc]) and reading back what its append stored gives the record (so [enc_rec] is injective on them).
+    [byte_crash s file start]: Writer::open's scan of [file], every record read back, then Worker::new ([reopen])
+    — with the sealed segments of [s].
+    For ANY byte prefix [b] of the live segment's record bytes followed by zeros, the recovered store IS
+    [crash s keep] (keep = number of whole records before the cut) when the cut record's remains are detected, and
+    [crash s (S keep)] when its lost bytes were all zero *)
+Theorem C05_byte_crash_is_record_crash_partial : forall H compress decompress enc_rec dec_rec s pre b z,
+  codec_ok compress decompress -> enc_ok_on H compress enc_rec dec_rec (s_recs (live s)) ->
+  b < lenN (seg_bytes H compress enc_rec s) ->
+  exists keep r k,
+    nth_error (s_recs (live s)) keep = Some r /\
+    let enc := (let '(c, h, d) := enc_rec r in stored_record H compress c h d) in
+    let file := pre ++ takeN b (seg_bytes H compress enc_rec s) ++ zerosN z in
+    k < lenN enc /\
+    b = lenN (concat (stored_all H compress (map enc_rec (firstn keep (s_recs (live s)))))) + k /\
+    (cut_detected H (takeN k enc ++ zerosN z) -> byte_crash H decompress dec_rec s file (lenN pre) = crash s keep) /\
+    (all_zero (dropN k enc) = true -> lenN enc - k <= z ->
+     byte_crash H decompress dec_rec s file (lenN pre) = crash s (S keep)).
+Proof. exact byte_crash_is_record_crash. Qed.
+
+(** ... composed with C05_recover_any_cut: after a crash at any byte the recovered store satisfies the invariant and
+    holds the sealed groups plus the groups of the whole records before the cut — a prefix of what was written,
+    all of it visible *)
+Theorem C05_byte_crash_recovers_partial : forall H compress decompress enc_rec dec_rec s pre b z,
+  codec_ok compress decompress -> enc_ok_on H compress enc_rec dec_rec (s_recs (live s)) -> Inv s ->
+  b < lenN (seg_bytes H compress enc_rec s) ->
+  exists keep r k,
+    nth_error (s_recs (live s)) keep = Some r /\
+    let enc := (let '(c, h, d) := enc_rec r in stored_record H compress c h d) in
+    let s' := byte_crash H decompress dec_rec s (pre ++ takeN b (seg_bytes H compress enc_rec s) ++ zerosN z) (lenN pre) in
+    k < lenN enc /\
+    b = lenN (concat (stored_all H compress (map enc_rec (firstn keep (s_recs (live s)))))) + k /\
+    (cut_detected H (takeN k enc ++ zerosN z) ->
+     Inv s' /\ abs_all s' = sealed_groups s ++ groups (firstn keep (s_recs (live s))) /\
+     abs_visible s' = abs_all s' /\ prefix (abs_all s') (abs_all s)).
+Proof. exact byte_crash_recovers. Qed.
+
+(** ** non-vacuity: a 12-byte record (H = 2) after a whole one; every cut position 1..11 is detected (and 0), and
+    recovery resumes after the first record; the L1 hypotheses are satisfiable *)
+Example C05_example_byte_cuts :
+  codec_ok wit_id wit_some /\ wf_all 2 wit_id [(false, [1;2], [7])] /\ wf_rec 2 wit_id false [3;4] [104;105] /\
+  lenN (stored_record 2 wit_id false [3;4] [104;105]) = 12 /\
+  forallb (fun k => match writer_open_offset 2 wit_some (cut_file 2 wit_id [9;9;9] [(false, [1;2], [7])] false [3;4] [104;105] k 40) 3
+                    with ROk o => o =? 14 | _ => false end) [0;1;2;3;4;5;6;7;8;9;10;11] = true /\
+  writer_open_offset 2 wit_some (cut_file 2 wit_id [9;9;9] [(false, [1;2], [7])] false [3;4] [104;105] 12 40) 3 = ROk 26.
+Proof.
+  split; [exact wit_id_codec_ok|]. split; [|split; [|vm_compute; repeat split; reflexivity]].
+  - repeat constructor; cbn; unfold is_byte; lia.
+  - repeat split; try reflexivity; repeat constructor; unfold is_byte; cbn; lia.
+Qed.
+
+Example C05_example_short_tail :
+  cut_detected 2 (takeN 10 (stored_record 2 wit_id false [3;4] [104;105]) ++ zerosN 40).
+Proof.
+  apply (C05_cut_detected_short_tail 2 wit_id wit_some false [3;4] [104;105] 10 40 [104;105] 0 wit_id_codec_ok).
+  - repeat split; try reflexivity; repeat constructor; unfold is_byte; cbn; lia.
+  - vm_compute; discriminate.
+  - vm_compute; discriminate.
+  - vm_compute; reflexivity.
+  - vm_compute; discriminate.
+  - reflexivity.
+Qed.
+
+(* the L1 premise is satisfiable: [wit_enc_rec]/[wit_dec_rec] (H = 1, every field one byte) on the store of
+   C05_example_crash; its live segment holds 7 records = 114 bytes; a crash that keeps 92 of them (5 whole records and
+   8 bytes of the sixth) recovers to [crash _ 5], and so does every other cut inside the sixth record *)
+Example C05_example_byte_crash :
+  enc_ok_on 1 wit_id wit_enc_rec wit_dec_rec (s_recs (live (run y_ops))) /\
+  lenN (seg_bytes 1 wit_id wit_enc_rec (run y_ops)) = 114 /\
+  byte_crash 1 wit_some wit_dec_rec (run y_ops) (zerosN 48 ++ takeN 92 (seg_bytes 1 wit_id wit_enc_rec (run y_ops)) ++ zerosN 200) 48
+  = crash (run y_ops) 5 /\
+  forallb (fun b => match iter_all 1 wit_some (zerosN 48 ++ takeN b (seg_bytes 1 wit_id wit_enc_rec (run y_ops)) ++ zerosN 200) (48 + b + 200) ra_empty 48
+                    with (_, recs, o, _) => (o =? 48 + 84) && Nat.eqb (length recs) 5 end)
+          [84;85;86;87;88;89;90;91;92;93;94;95;96;97;98;99;100;101] = true.
+Proof.
+  split; [|vm_compute; repeat split; reflexivity].
+  apply wit_enc_ok. vm_compute. repeat constructor.
+Qed.
+
+Print Assumptions C05_cut_detected_exact.
+Print Assumptions C05_byte_cut_is_record_cut_partial.
+Print Assumptions C05_any_byte_cut_is_record_cut_partial.
+Print Assumptions C05_cut_detected_head.
+Print Assumptions C05_cut_detected_file_end.
+Print Assumptions C05_cut_detected_burst.
+Print Assumptions C05_cut_detected_short_tail.
+Print Assumptions C05_byte_cut_zero_tail.
+Print Assumptions C05_byte_cut_unconditional_refuted.
+Print Assumptions C05_byte_crash_is_record_crash_partial.
+Print Assumptions C05_byte_crash_recovers_partial.
